@@ -14,9 +14,10 @@ AXIOMS_ALLOWED = runner.REAL_AXIOMS     # only the log-sum-exp theorems (over R)
 CLOSED_THEOREMS = ["C15_det_lemma", "C15_capacitance_invertible", "C15_woodbury", "C15_blockdiag_entries", "C15_blockdiag_inverse",
                    "C15_blockdiag_det", "C15_uvr_det", "C15_uvr_eq_direct", "C15_uvr_eq_direct_per_block", "C15_uvr_eq_direct_shared",
                    "C15_sym_factor_assembled_spd", "C15_uvr_eq_direct_sym_factor",
-                   "C15_uvr_capacitance_invertible", "C15_density_uvr_exp", "C15_density_exp", "C15_batch_lengths", "C15_logdensity_def"]
+                   "C15_uvr_capacitance_invertible", "C15_direct_logdet_guard", "C15_uvr_logdet_guard", "C15_uvr_det_R_guard",
+                   "C15_uvr_logdet_guard_sym_factor", "C15_density_uvr_eq_direct", "C15_log_density_uvr_eq_direct_batch", "C15_density_uvr_exp", "C15_density_exp", "C15_batch_lengths", "C15_logdensity_def"]
 REQUIRED_THEOREMS = CLOSED_THEOREMS + ["C15_lse_spec", "C15_lse_shift", "C15_lse_max_is_entry", "C15_lse_no_overflow", "C15_lse_neginf",
-                                       "C15_lse_all_neginf_is_nan"]
+                                       "C15_lse_neginf_shift", "C15_lse_all_neginf_is_nan"]
 COQ_PREFIXES = ["C15", "C19"]           # C15_ROps / C15_RProofs import the shared real instance ROps of C19_ROps.v
 RULE = ("cases from one seeded stream. uvr: num_blocks 1..4, block_size with d = num_blocks*block_size <= 8, batch 1..5, k 1..4, "
         "R shared (one block) or per block (SPD blocks, cond <= 1e5), V = U^T / W U^T (W symmetric) / general (S not symmetric, symmetric part PD) / zero, "
@@ -58,70 +59,110 @@ def blockdiag(blocks):
     return out
 
 
-def gen_uvr(rng, cid, big=False):
+def mx0(a):
+    """max |a| with the empty maximum = 0 (batch 0, k = 0)"""
+    a = np.asarray(a, dtype=float)
+    return float(np.max(np.abs(a))) if a.size else 0.0
+
+
+def gen_uvr(rng, cid, big=False, force=None):
+    """force: None, "b0" (empty batch), "k0" (U d x 0, V 0 x d), "nearsing" (R nearly singular, S well conditioned)"""
     while True:
         if big:       # beyond the stated ranges (thorough tier only): d up to 12, k up to 6
             nb = rng.randint(1, 5); bs = rng.randint(1, 12 // nb); k = rng.randint(1, 6)
         else:
             nb = rng.randint(1, 4); bs = rng.randint(1, 8 // nb); k = rng.randint(1, 4)
+        kind = force if force is not None else rng.choice([None] * 20 + ["b0", "k0", "nearsing", "nearsing"])
+        if kind == "nearsing" and bs < 2:
+            bs = 2
         d = nb * bs
-        b = rng.randint(1, 5)
+        b = 0 if kind == "b0" else rng.randint(1, 5)
+        if kind == "k0":
+            k = 0
         enc = rng.choice(["shared", "perblock"])
         lo = 10 ** rng.uniform(-2, 1)
         cmax = rng.choice([1, 3, 5])
-        if enc == "shared":
-            B, _ = gen.spd(rng, bs, 10 ** rng.uniform(0, cmax), lo)
-            blocks = [B] * nb; R = B
+        if kind == "nearsing":
+            # every block has one eigenvalue eps << lo along q_t; U V fills exactly those directions, so that
+            # S = U V + R is well conditioned although R is nearly singular (worst cancellation in the Woodbury form)
+            def nsblock():
+                q = gen.orthogonal(rng, bs)
+                ev = np.array([lo * 10 ** -rng.uniform(2, 6)] + [lo * 10 ** rng.uniform(0, 1) for _ in range(bs - 1)])
+                B = (q * ev) @ q.T
+                return (B + B.T) / 2, q[:, 0]
+            if enc == "shared":
+                B, q0 = nsblock(); blocks, qs = [B] * nb, [q0] * nb; R = B
+            else:
+                pr = [nsblock() for _ in range(nb)]
+                blocks, qs = [p[0] for p in pr], [p[1] for p in pr]; R = np.hstack(blocks)
+            k = nb
+            U = np.zeros((d, k))
+            for t in range(nb):
+                U[t * bs:(t + 1) * bs, t] = math.sqrt(lo) * 10 ** rng.uniform(0, 0.5) * qs[t]
+            V = U.T * (1 + 0.3 * gen.matrix(rng, k, d)) + 0.05 * math.sqrt(lo) * gen.matrix(rng, k, d)
+            vkind = "nearsing"
         else:
-            blocks = [gen.spd(rng, bs, 10 ** rng.uniform(0, cmax), lo * 10 ** rng.uniform(-0.5, 0.5))[0] for _ in range(nb)]
-            R = np.hstack(blocks)
+            if enc == "shared":
+                B, _ = gen.spd(rng, bs, 10 ** rng.uniform(0, cmax), lo)
+                blocks = [B] * nb; R = B
+            else:
+                blocks = [gen.spd(rng, bs, 10 ** rng.uniform(0, cmax), lo * 10 ** rng.uniform(-0.5, 0.5))[0] for _ in range(nb)]
+                R = np.hstack(blocks)
+            vkind = rng.choice(["UT", "UT", "WUT", "general", "general", "zero"]) if k > 0 else "k0"
+            uscale = math.sqrt(lo) * 10 ** rng.uniform(-1, 1.5)
+            U = gen.matrix(rng, d, k, uscale).reshape(d, k)
+            if vkind == "UT":
+                V = U.T.copy()
+            elif vkind == "WUT":
+                W = gen.matrix(rng, k, k); W = (W + W.T) / 2
+                V = W @ U.T
+            elif vkind == "general":
+                V = gen.matrix(rng, k, d, uscale)
+            elif vkind == "k0":
+                V = np.zeros((0, d))
+            else:
+                V = np.zeros((k, d))
+                if rng.random() < 0.5:
+                    V = gen.matrix(rng, k, d, uscale); U = np.zeros((d, k))
         Rd = blockdiag(blocks)
-        vkind = rng.choice(["UT", "UT", "WUT", "general", "general", "zero"])
-        uscale = math.sqrt(lo) * 10 ** rng.uniform(-1, 1.5)
-        U = gen.matrix(rng, d, k, uscale)
-        if vkind == "UT":
-            V = U.T.copy()
-        elif vkind == "WUT":
-            W = gen.matrix(rng, k, k); W = (W + W.T) / 2
-            V = W @ U.T
-        elif vkind == "general":
-            V = gen.matrix(rng, k, d, uscale)
-        else:
-            V = np.zeros((k, d))
-            if rng.random() < 0.5:
-                V = gen.matrix(rng, k, d, uscale); U = np.zeros((d, k))
         S = U @ V + Rd
         # keep the symmetric part positive definite (then det S > 0) by shrinking U V if needed
         for _ in range(6):
-            if np.linalg.eigvalsh((S + S.T) / 2).min() > 0.05 * lo:
+            if np.linalg.eigvalsh((S + S.T) / 2).min() > (0.05 * lo if kind != "nearsing" else 0.0):
+                break
+            if kind == "nearsing":
                 break
             U = U / 2; V = V / 2; S = U @ V + Rd
         else:
+            continue
+        if np.linalg.eigvalsh((S + S.T) / 2).min() <= 0:
             continue
         condS = float(np.linalg.cond(S))
         if not (condS <= 1e6 and np.linalg.det(S) > 0):
             continue
         condR = max(float(np.linalg.cond(B)) for B in blocks)
+        if kind == "nearsing" and not condR > 30 * condS:
+            continue
         Ri = np.linalg.inv(Rd)
         Mc = np.eye(k) + V @ Ri @ U
-        condM = float(np.linalg.cond(Mc))
+        condM = float(np.linalg.cond(Mc)) if k > 0 else 1.0
         mean = gen.matrix(rng, d, 1, 3.0)
         # evaluation points: S^(1/2)-scaled around the mean, some far away
         Ssym = (S + S.T) / 2
         L = np.linalg.cholesky(Ssym)
         far = 10 ** rng.choice([0, 0, 0, 1, 2])
-        inp = mean + far * (L @ gen.matrix(rng, d, b))
-        if rng.random() < 0.1:
+        inp = (mean + far * (L @ gen.matrix(rng, d, b).reshape(d, b))).reshape(d, b)
+        if b > 0 and rng.random() < 0.1:
             inp[:, 0] = mean[:, 0]          # a point exactly at the mean
         diff = inp - mean
-        q1 = float(np.max(np.abs(np.einsum("ij,ij->j", diff, Ri @ diff))))
-        Wd = Ri @ U @ np.linalg.solve(Mc, V @ Ri)
-        q2 = float(np.max(np.abs(np.einsum("ij,ij->j", diff, Wd @ diff))))
-        q = float(np.max(np.abs(np.einsum("ij,ij->j", diff, np.linalg.solve(S, diff)))))
+        q1 = mx0(np.einsum("ij,ij->j", diff, Ri @ diff))
+        Wd = Ri @ U @ np.linalg.solve(Mc, V @ Ri) if k > 0 else np.zeros((d, d))
+        q2 = mx0(np.einsum("ij,ij->j", diff, Wd @ diff))
+        q = mx0(np.einsum("ij,ij->j", diff, np.linalg.solve(S, diff)))
         # norm-wise sizes (for a non-symmetric S the quadratic forms can be much smaller than their terms)
-        qn = float(np.max(np.sum(diff * diff, axis=0)) * np.linalg.norm(np.linalg.inv(S), 2))
-        q2n = float(np.max(np.linalg.norm(U.T @ Ri.T @ diff, axis=0) * np.linalg.norm(V @ Ri @ diff, axis=0))
-                    * np.linalg.norm(np.linalg.inv(Mc), 2))
+        qn = mx0(np.sum(diff * diff, axis=0)) * float(np.linalg.norm(np.linalg.inv(S), 2))
+        q2n = (mx0(np.linalg.norm(U.T @ Ri.T @ diff, axis=0) * np.linalg.norm(V @ Ri @ diff, axis=0))
+               * float(np.linalg.norm(np.linalg.inv(Mc), 2))) if k > 0 else 0.0
         c = caseio.Case(cid, "uvr", {"d": d, "b": b, "k": k, "bs": bs, "nb": nb, "enc": enc, "vkind": vkind,
                                       "condS": "%.4g" % condS, "condR": "%.4g" % condR, "condM": "%.4g" % condM,
                                       "q1": "%.4g" % q1, "q2": "%.4g" % max(q2, q2n), "q": "%.4g" % q, "qn": "%.4g" % qn, "far": far})
@@ -135,8 +176,24 @@ def dyadic(x):
 
 
 def gen_lse(rng, cid):
-    kind = rng.choice(["uniform", "uniform", "clustered_hi", "clustered_lo", "equal", "neginf", "neginf", "small", "absmax", "allneginf"])
+    kind = rng.choice(["uniform", "uniform", "clustered_hi", "clustered_lo", "equal", "neginf", "neginf", "small", "absmax", "allneginf",
+                       "tie_max", "tie_max", "tie_neginf", "const_logn"])
     n = rng.randint(1, 50)
+    if kind in ("tie_max", "tie_neginf"):
+        # the maximum occurs more than once (2..n times), anywhere in the vector; optionally with -inf entries
+        n = max(n, 3)
+        m = rng.choice([rng.uniform(-1e4, 1e4), rng.uniform(-5, 5)])
+        x = [m - rng.choice([rng.uniform(0, 5), rng.uniform(0, 1e4)]) for _ in range(n)]
+        if kind == "tie_neginf":
+            x = [v if rng.random() < 0.6 else -math.inf for v in x]
+        for i in rng.sample(range(n), rng.randint(2, n)):
+            x[i] = m
+        x = [v if math.isinf(v) else dyadic(v) for v in x]
+        return lse_case(rng, cid, kind, x)
+    if kind == "const_logn":
+        # uniform weights in the log domain: Constant(n, -log n), log_sum_exp = 0 (all entries are maxima)
+        n = rng.choice([2, 3, 10, 50, 100, n])
+        return lse_case(rng, cid, kind, [-math.log(n)] * n)
     if kind == "uniform":
         x = [rng.uniform(-1e4, 1e4) for _ in range(n)]
     elif kind == "clustered_hi":
@@ -159,8 +216,15 @@ def gen_lse(rng, cid):
         x = [rng.uniform(-1e4, 1e4) if rng.random() < 0.6 else -math.inf for _ in range(n)]
         x[rng.randrange(n)] = rng.uniform(-1e4, 1e4)     # at least one finite entry
     x = [v if math.isinf(v) else dyadic(v) for v in x]
+    return lse_case(rng, cid, kind, x)
+
+
+def lse_case(rng, cid, kind, x):
+    n = len(x)
+    fin = [v for v in x if not math.isinf(v)]
     sh = dyadic(rng.choice([rng.uniform(-1e4, 1e4), rng.uniform(-5, 5), 0.0]))
-    c = caseio.Case(cid, "lse", {"n": n, "lkind": kind, "neginf": sum(1 for v in x if math.isinf(v))})
+    c = caseio.Case(cid, "lse", {"n": n, "lkind": kind, "neginf": sum(1 for v in x if math.isinf(v)),
+                                 "maxcount": sum(1 for v in fin if v == max(fin)) if fin else 0})
     c.mat_shape("x", n, 1, x).mat_shape("c", 1, 1, [sh])
     divs = [m for m in (2, 3, 5) if n % m == 0 and n > m]
     if divs and rng.random() < 0.4:
@@ -168,9 +232,26 @@ def gen_lse(rng, cid):
     return c
 
 
+def corpus(rng):
+    """Hand-picked boundary cases, always run first (ids c0, c1, ...): ties at the maximum (a seeded change that
+    dropped duplicated maxima was caught by these), uniform log-weights, ties beside -inf, empty batch, k = 0,
+    nearly singular R with a well conditioned S."""
+    inf = -math.inf
+    vecs = [("const_logn", [-math.log(100)] * 100), ("const_logn", [-math.log(2)] * 2), ("tie_max", [5.0, 5.0]),
+            ("tie_max", [1.0, 7.0, 7.0, 7.0, -3.0]), ("tie_max", [1e4, 1e4, 1e4]), ("tie_max", [-1e4, -1e4]),
+            ("tie_max", [0.0, -1.0, 0.0, -2.0, 0.0, -3.0, 0.0]), ("tie_neginf", [5.0, 5.0, inf]), ("tie_neginf", [inf, 3.0, 3.0, inf, 3.0]),
+            ("tie_neginf", [inf, -9000.0, inf, -9000.0]), ("equal", [2.5]), ("neginf", [inf, 0.0]), ("allneginf", [inf, inf])]
+    out = [lse_case(rng, "c%d" % i, k, x) for i, (k, x) in enumerate(vecs)]
+    n = len(out)
+    for j, f in enumerate(["b0", "b0", "k0", "k0", "nearsing", "nearsing", "nearsing", "nearsing"]):
+        out.append(gen_uvr(rng, "c%d" % (n + j), False, f))
+    return out
+
+
 def generate(rng, tier):
     nu, nl = COUNTS[tier]
-    cases = [gen_uvr(rng, i, tier == "thorough" and rng.random() < 0.15) for i in range(nu)]
+    cases = corpus(rng)
+    cases += [gen_uvr(rng, i, tier == "thorough" and rng.random() < 0.15) for i in range(nu)]
     cases += [gen_lse(rng, nu + i) for i in range(nl)]
     return cases
 
@@ -182,7 +263,7 @@ def nontrivial(c):
                     gen.decade(float(c.meta["condS"])))
         return None
     if int(c.meta["n"]) >= 2:
-        return ("lse", c.meta["lkind"], int(c.meta["n"]) // 10, int(c.meta["neginf"]) > 0)
+        return ("lse", c.meta["lkind"], int(c.meta["n"]) // 10, int(c.meta["neginf"]) > 0, int(c.meta.get("maxcount", 1)) > 1)
     return None
 
 
@@ -220,7 +301,7 @@ def compare(c, impl, model):
             a, b = impl.get(f), model.get(f)
             if a.shape != b.shape:
                 d.append("%s: shape impl=%s model=%s" % (f, a.shape, b.shape)); continue
-            mag = float(np.max(np.abs(model.get("ld" if f in ("ld", "dn") else "ldu"))))
+            mag = mx0(model.get("ld" if f in ("ld", "dn") else "ldu"))
             tol = tol_direct(c, mag) if f in ("ld", "dn") else tol_uvr(c, mag)
             ok = close_log(a, b, tol) if f in ("ld", "ldu") else close_dens(a, b, tol)
             if not ok:
@@ -305,7 +386,7 @@ def oracle(c, impl, model):
     sign, logdet = np.linalg.slogdet(S)
     quad = np.einsum("ij,ij->j", diff, np.linalg.solve(S, diff))
     ref = (-0.5 * (d * math.log(2 * math.pi) + logdet + quad)).reshape(b, 1)
-    mag = float(np.max(np.abs(ref)))
+    mag = mx0(ref)
     td, tu = tol_direct(c, mag), tol_uvr(c, mag)
     if not np.all(np.isfinite(ld)):
         v.append(("C15:direct-not-finite:%s" % tag, "direct log-density %s" % ld.reshape(-1)))
